@@ -326,7 +326,8 @@ fn deep_run(seed: u64, run: u64, shared: &world::KeyEntry<V512>) -> RunOutcome {
     while k < 30 && (yields >> k) > budget {
         k += 1;
     }
-    let plan = WorldPlan { n: 512, key_seeds: vec![shared.seed], sched_seed: rng.next_u64(), switch_exp: Some(k), boundary: 64, threads, align: None };
+    let align = if rng.chance(1, 3) { Some((*rng.pick(&[16u32, 64, 256]), *rng.pick(&[1u32, 2, 3]))) } else { None };
+    let plan = WorldPlan { n: 512, key_seeds: vec![shared.seed], sched_seed: rng.next_u64(), switch_exp: Some(k), boundary: 64, threads, align };
     let v = run_plan::<V512>(&plan, keys, true);
     out.stats = v.stats;
     out.stats.inc("runs");
